@@ -40,7 +40,7 @@ func genCase(t *rapid.T) Case {
 	classes := rapid.SampledFrom([]int{
 		gen.SmallInt, gen.SmallInt, gen.Moderate, gen.Big200, gen.SmallInt | gen.Big200, gen.SmallInt | gen.Moderate | gen.Zeros, gen.IntEdge, gen.IntEdge | gen.SmallInt,
 	}).Draw(t, "classes")
-	o := gen.TreeOpts{Layouts: layouts, Kinds: kinds, Floats: classes, MaxParts: 4, MaxPts: 6, PEmpty: 25, LongPct: 1, LongMax: 300}
+	o := gen.TreeOpts{Layouts: layouts, Kinds: kinds, Floats: classes, MaxParts: 4, MaxPts: 6, PEmpty: 25, LongPct: 1, LongMax: 300, SRID: gen.SRIDs}
 	g := gen.Tree(t, o)
 	if g.Layout == int(geom.NoLayout) {
 		g.C0, g.C1, g.C2, g.C3 = nil, nil, nil, nil
@@ -229,6 +229,11 @@ func prop(c Case) error {
 	// the measures are those of the coordinates as they are now: x and y of every
 	// coordinate are exchanged in place through the alias (rings stay closed, the area
 	// changes sign) and the same object is measured again
+	for i := 0; i < 2; i++ { // asked again: what is remembered may only be used from the second or third time on
+		if err := measure(g, t); err != nil {
+			return fmt.Errorf("measured again: %v", err)
+		}
+	}
 	if model.SwapXY(held) {
 		// the expectation comes from the model, not from the object: reading the object
 		// back (FlatCoords) would itself be a call that may refresh something inside it
